@@ -15,6 +15,7 @@
 
 #[path = "/repo/src/uploading/sync.rs"] mod sync_alone;
 #[path = "/repo/src/restoring/util.rs"] mod restoring_util;
+#[path = "/repo/src/uploading/check.rs"] mod check_alone;
 
 mod sexp;
 mod h_c18;
@@ -26,6 +27,7 @@ mod h_c06;
 mod h_c20;
 mod h_storage;
 mod h_paths;
+mod h_c13;
 
 use std::io::{self, BufRead, Write};
 
@@ -49,6 +51,7 @@ fn main() {
 }
 
 fn lines() {
+    h_c13::init_logger();
     let stdin = io::stdin();
     let stdout = io::stdout();
     let mut out = io::BufWriter::new(stdout.lock());
@@ -84,6 +87,8 @@ fn dispatch(v: &Val) -> Val {
         1400 => h_c14::run(&l[1]),
         600 => h_c06::run(&l[1]),
         2000 => h_c20::run(&l[1]),
+        1300 => h_c13::verify(&l[1]),
+        1301 => h_c13::check(&l[1]),
         1101 => h_paths::restore_path(&l[1]),
         1102 => h_paths::tar_path(&l[1]),
         1000 => h_c10::encode(&l[1]),
